@@ -49,14 +49,17 @@ type Walk struct {
 }
 
 type Out struct {
-	Lint  Shape `json:"lint"`
-	Input Shape `json:"input"`
-	Walk  Walk  `json:"walk"`
+	Lint     Shape `json:"lint"`
+	Input    Shape `json:"input"`
+	CacheGet Shape `json:"cache_get"`
+	CachePut Shape `json:"cache_put"`
+	Walk     Walk  `json:"walk"`
 }
 
 type extractor struct {
 	fset   *token.FileSet
 	lit    *ast.FuncLit
+	recv   *ast.Object // method mode: only the receiver counts as shared
 	stmts  []Stmt
 	defers []Stmt
 }
@@ -64,6 +67,9 @@ type extractor struct {
 func (e *extractor) captured(id *ast.Ident) bool {
 	if id == nil || id.Obj == nil || id.Obj.Kind != ast.Var {
 		return false
+	}
+	if e.recv != nil {
+		return id.Obj == e.recv
 	}
 	p := id.Obj.Pos()
 	return p < e.lit.Pos() || p > e.lit.End()
@@ -184,7 +190,7 @@ func (e *extractor) stmt(s ast.Stmt, depth int) {
 			e.defers = append(e.defers, Stmt{Op: op, Name: recv, Depth: depth, Deferred: true, Line: e.fset.Position(v.Pos()).Line})
 			return
 		}
-		sub := &extractor{fset: e.fset, lit: e.lit}
+		sub := &extractor{fset: e.fset, lit: e.lit, recv: e.recv}
 		sub.reads(v.Call, depth)
 		for _, st := range sub.stmts {
 			st.Deferred = true
@@ -343,6 +349,30 @@ func workerShape(fset *token.FileSet, file *ast.File, rel, fn string) Shape {
 	}
 	sh.Found = true
 	sh.Stmts = e.stmts
+	return sh
+}
+
+// methodShape: the body of method fn of the file, with the receiver as the only shared variable
+func methodShape(fset *token.FileSet, file *ast.File, rel, fn string) Shape {
+	sh := Shape{File: rel, Func: fn, Stmts: []Stmt{}}
+	for _, d := range file.Decls {
+		fd, ok := d.(*ast.FuncDecl)
+		if !ok || fd.Name.Name != fn || fd.Recv == nil || len(fd.Recv.List) != 1 || len(fd.Recv.List[0].Names) != 1 || fd.Body == nil {
+			continue
+		}
+		e := &extractor{fset: fset, recv: fd.Recv.List[0].Names[0].Obj}
+		e.block(fd.Body.List, 0)
+		for i := len(e.defers) - 1; i >= 0; i-- {
+			e.stmts = append(e.stmts, e.defers[i])
+		}
+		for _, s := range e.stmts {
+			if s.Op == "lock" && sh.Mutex == "" {
+				sh.Mutex = s.Name
+			}
+		}
+		sh.Found = true
+		sh.Stmts = e.stmts
+	}
 	return sh
 }
 
@@ -516,6 +546,9 @@ func main() {
 	out.Lint = workerShape(fset, lf, "pkg/linter/linter.go", "lintWithRegoRules")
 	rf := parse(fset, filepath.Join(repo, "pkg", "rules", "rules.go"))
 	out.Input = workerShape(fset, rf, "pkg/rules/rules.go", "InputFromPaths")
+	cf := parse(fset, filepath.Join(repo, "internal", "cache", "cache.go"))
+	out.CacheGet = methodShape(fset, cf, "internal/cache/cache.go", "Get")
+	out.CachePut = methodShape(fset, cf, "internal/cache/cache.go", "Put")
 	out.Walk = walkConsts(repo)
 	b, _ := json.MarshalIndent(out, "", " ")
 	fmt.Println(string(b))
